@@ -11,6 +11,7 @@ import YtkProofs.ApplyDiffB
 import YtkProofs.ValidB
 import YtkProofs.Decisions2
 import YtkModel.Generated.Constants
+import YtkProofs.FuncsPlpc
 
 namespace Ytk.C08
 
@@ -265,5 +266,51 @@ theorem apply_delete_absent_empty_path :
     (Node.cont [("", Node.null)]).Valid ∧ lookup [("", Node.null)] "" = none ∧
     apply [("", Node.null)] [Mod.mkDel ""] = [] :=
   ⟨Node.validB_sound _ (by decide +kernel), by decide +kernel, by decide +kernel⟩
+/-! ## Translated functions (YtkModel/Generated/Funcs.lean, regenerated from the Go source on every
+    run by extract/translate.go): the translation EQUALS the hand-written model on the stated
+    domain.  An edit of the Go function changes the regenerated definition and these stop checking. -/
+namespace Ytk.C08
+open Ytk.Generated
+
+/-- utils.ParseListPathComponent, as translated (regexp guard = `Go.reListProp`, scanning loop with
+    fuel len(path)+1): on components whose bracket groups read the same under strconv.Atoi and the
+    model's `atoiOr0` (`PlpcGroupsOk`) it is the model's `parseListComp`; where the model says
+    `none` although the guard matched, the Go code panics on a slice bound. -/
+theorem ParseListPathComponent_generated_eq_model (c : String)
+    (hg : PlpcGroupsOk (c.toList.length + 1) c.toList) :
+    Funcs.ParseListPathComponent c
+      = (if hasIdxGroup c.toList then
+           (match parseListComp c with
+            | some (n, is) => .ok (n, is.map Int.ofNat, true)
+            | none => .panic)
+         else .ok ("", [], false)) := by
+  unfold Funcs.ParseListPathComponent parseListComp
+  simp only [Go.reListProp, Go.reListPropC_eq]
+  by_cases hh : hasIdxGroup c.toList = true
+  · obtain ⟨k, hk⟩ := indexOfChar_of_hasIdxGroup _ hh
+    have hb1 : ("[" : String) = String.singleton '[' := by decide
+    have hfuel : (Go.len c + 1).toNat = c.toList.length + 1 := by simp only [Go.len_eq]; omega
+    have hloop := PLPC_loop1_eq c (k : Int) (c.toList.length + 1) c [] (Nat.le_refl _) hg
+    have hs := Go.slice_nat c 0 k (by omega) (by have := indexOfChar_lt _ _ _ hk; omega)
+    simp only [Int.natCast_zero, List.drop_zero, Nat.sub_zero] at hs
+    simp only [List.map_nil] at hloop
+    simp only [hh, Bool.not_true, Bool.false_eq_true, if_false, if_true, hb1, stringsIndex_char, hk, hfuel, hloop, hs,
+      takeWhile_eq_take_of_indexOfChar _ _ _ hk]
+    cases plpcLoop (c.toList.length + 1) c.toList [] <;> simp
+  · simp [hh]
+
+theorem nonvacuous_ParseListPathComponent :
+    PlpcGroupsOk ("ab[12][3]".toList.length + 1) "ab[12][3]".toList
+      ∧ Funcs.ParseListPathComponent "ab[12][3]" = .ok ("ab", [12, 3], true) := by
+  refine ⟨?_, by decide⟩
+  simp [PlpcGroupsOk, indexOfChar, Go.atoi, Go.atoiDigits, atoiOr0, Go.isDigit, Ytk.isDigit, Go.digitsVal, digitsToNat]
+
+/-- outside `PlpcGroupsOk`: a signed group is read by strconv.Atoi (−2) but not by the model's
+    `atoiOr0` (0) — the model's documented restriction ("signs and overflow are outside the
+    modelled domain"); such components do not occur in flatten-style paths -/
+theorem ParseListPathComponent_signed_group_counterexample :
+    Funcs.ParseListPathComponent "a[1][-2]" = .ok ("a", [1, -2], true)
+      ∧ parseListComp "a[1][-2]" = some ("a", [1, 0]) := by
+  decide
 
 end Ytk.C08
